@@ -1,7 +1,8 @@
 (* C05 stage 3: model of v2/pkg/astprinter (printVisitor over astvisitor.SimpleWalker) and
    ast.PrintValue / PrintType / PrintArgument for executable documents.
    [ind = None] is astprinter.Print (compact); [ind = Some i] is PrintIndent(i).
-   The spacing rules (who emits the blank after a directive list, when "query" is omitted, ...)
+   The spacing rules (who emits the blank after a directive list, when "query" is omitted -- only for
+   the bare shorthand since the repair of EnterOperationDefinition -- ...)
    are those of Enter*/Leave* in astprinter.go, read off branch by branch. *)
 From Gv Require Import lib.Bytes lib.Gql C05.Lex.
 Open Scope N_scope.
@@ -149,7 +150,7 @@ Definition print_def (ind : option bytes) (last : bool) (d : definition) : bytes
     let has_name := match op_name o with Some _ => true | None => false end in
     let has_vars := nonempty (op_vars o) in
     (match op_kind o with
-     | OpQuery => if has_name || has_vars then s_query else []
+     | OpQuery => if has_name || has_vars || nonempty (op_dirs o) then s_query else []
      | OpMutation => s_mutation
      | OpSubscription => s_subscription
      end)
